@@ -8,9 +8,9 @@ INFO = {
     "assumptions": ['as C02'],
 }
 MANIFEST = {
-    "text": 'The size-class allocator installed through the public lrtr_set_alloc_functions fails the k-th request for a symbolic k: each single prefix-table operation from an arbitrary Inv-valid table reports an error without invalid access, leaves no partial effect on any record and keeps Inv; pfx_table_free returns every block to the configured allocator (ledger = 0); the rtr_sync unit releases everything it allocated on every exit and tolerates table errors (C03 jobs run with failing table operations).',
-    "note": 'Router-key table and tommy under allocation failure are not claimed in the quick tier (F12/F13 candidates are recorded as reading notes in DESIGN.md).',
-    "technique": 'CBMC with a symbolic failing allocation index on real trie-pfx.c + allocator ledger',
+    "text": 'The size-class allocator (installed through the public lrtr_set_alloc_functions, or standing in for lrtr_malloc/realloc/free) fails the k-th request for a symbolic k. (a) Each single prefix-table operation from an arbitrary Inv-valid table reports an error without partial effect or succeeds completely (real trie-pfx.c). (b) Router-key table: histories on the real ht-spkitable.c + tommyhashlin with the k-th request failing (table init, entry, bucket segment of a grow step, result arrays), CBMC pointer checks on, and a final spki_table_free after which nothing may remain allocated from the configured allocator; the hash container\'s own grow step with a failing segment allocation from an arbitrary valid state. (c) A synchronisation: the real rtr_sync on exchange skeletons with the k-th allocation (PDU stores and their growth, shadow tables) failing: error reported, the cache\'s records untouched or purged, every block released, no NULL dereference. (d) pfx_table_free returns every block (ledger).',
+    "note": 'Found and fixed here: F12 (entries freed with libc free), F13a (grow step used a failed segment allocation), F13b (spki_table_init could not report a failed bucket allocation), F14 (failed shrinking realloc made remove-by-source stop half-way). One failure per run; router-key histories of <= 2 operations (3 in thorough); sync skeletons listed in the evidence.',
+    "technique": 'CBMC with a symbolic (or driver-enumerated) failing allocation index on real trie-pfx.c, ht-spkitable.c/tommyhashlin.c and rtr_sync + allocator ledger + pointer checks',
 }
 
 
@@ -53,6 +53,18 @@ def jobs(tier):
         j.name = "hashlin_allocfail_insert_b%d" % b
         j.defines = j.defines + ["ALLOC_FAIL"]
         j.desc = "the segment allocation of a starting grow step may fail: " + j.desc
+        J.append(j)
+    # ---- a synchronisation: the k-th allocation of the exchange (PDU stores, shadow tables) fails
+    # (store increment 1: the PDU store is allocated by the first and grown by the second record of a kind)
+    sk = [([CR, V4, EOD], 2), ([CR, V6, EOD], 2), ([CR, KEY, EOD], 2), ([CR, V4, V4, EOD], 1), ([CR, KEY, KEY, EOD], 1)]
+    if tier == "thorough":
+        sk += [([CR, V6, V6, EOD], 1), ([CR, V4, V4, V4, EOD], 2), ([CR, V4, V6, KEY, EOD], 2)]
+    for skel, inc in sk:
+        j = sync_job("ASSERT_C18", skel, extra=["ALLOC_FAIL"], timeout=2400, store_inc=inc)
+        j.name = "allocfail_" + j.name + ("" if inc == 2 else "_inc%d" % inc)
+        j.extra_checks = ["--pointer-check"]
+        j.desc = ("k-th allocation request of the exchange fails (k symbolic, 0 = none; CBMC pointer checks on): the exchange reports an "
+                  "error, the cache's records are untouched or purged, every block is released: ") + j.desc
         J.append(j)
     J.append(C02.op_job("ledger_free_v4_d1", "harness_free", 1, 2, 4, 1500, prop="ASSERT_C09", harness="pfx_notify.c"))
     return J
